@@ -10,6 +10,7 @@ import LitexModel.Generated.Keywords
         -> `_build_signal_name_dict`, one name per signal
     call namespace <kw:0|1> <sig> ; ... | <extra =text>* | <req>*
         -> `build_signal_namespace` + the `get_name` requests (req >= #sigs addresses an extra object)
+    call getnames_fixed … / namespace_fixed …   the same through the repaired get_name (`getNameFixed`)
     call iskw =<text>      -> 1 / 0      call kwcount -> number of keywords
     call wellformed        -> kwWellformed keywords
     call noshape <base>*   -> noSuffixShapedBase
@@ -44,27 +45,35 @@ def splitBar (ws : List String) : List String × List String :=
 
 def showNames (l : List String) : String := " ".intercalate (l.map q)
 
+def getnames (f : List String → (SigId → String) → List SigId → List (SigId × String))
+    (flag : String) (rest : List String) : Option String :=
+  match splitSemi rest with
+  | [bs, rs] => do
+    let kw ← kwOf flag
+    let bases ← bs.mapM unq
+    let reqs ← parseNats rs
+    pure (showNames ((f kw (fun i => bases[i]?.getD "") reqs).map (·.2)))
+  | _ => none
+
+def nsCall (f : List String → List Sig → List String → List Nat → List (SigId × String))
+    (flag : String) (rest : List String) : Option String := do
+  let kw ← kwOf flag
+  let (ss, rest2) := splitBar rest
+  let (es, rs) := splitBar rest2
+  let sigs ← (splitSemi ss).mapM parseSig
+  let extra ← es.mapM unq
+  let reqs ← parseNats rs
+  pure (showNames ((f kw sigs extra reqs).map (·.2)))
+
 def call (args : List String) : Option String :=
   match args with
-  | "getnames" :: flag :: rest =>
-    match splitSemi rest with
-    | [bs, rs] => do
-      let kw ← kwOf flag
-      let bases ← bs.mapM unq
-      let reqs ← parseNats rs
-      pure (showNames ((answers kw (fun i => bases[i]?.getD "") reqs).map (·.2)))
-    | _ => none
+  | "getnames" :: flag :: rest => getnames answers flag rest
+  | "getnames_fixed" :: flag :: rest => getnames answersFixed flag rest
   | "dict" :: rest => do
     let sigs ← (splitSemi rest).mapM parseSig
     pure (showNames (dictList sigs))
-  | "namespace" :: flag :: rest => do
-    let kw ← kwOf flag
-    let (ss, rest2) := splitBar rest
-    let (es, rs) := splitBar rest2
-    let sigs ← (splitSemi ss).mapM parseSig
-    let extra ← es.mapM unq
-    let reqs ← parseNats rs
-    pure (showNames ((namespaceAnswers kw sigs extra reqs).map (·.2)))
+  | "namespace" :: flag :: rest => nsCall namespaceAnswers flag rest
+  | "namespace_fixed" :: flag :: rest => nsCall namespaceAnswersFixed flag rest
   | ["iskw", w] => (unq w).map fun s => if s ∈ keywords then "1" else "0"
   | ["kwcount"] => some (toString keywords.length)
   | ["wellformed"] => some (if kwWellformed keywords then "1" else "0")
